@@ -81,15 +81,17 @@ def build(f):
         body = fmt(BODY_OK[(site, okn)])
         return base % (NFACETS[site], site, body), [], base % (int(var), site, body), []
     if cls == 'tr_m':
-        tr = '1 0 0 1 0 0 0 1 0 0 0 1 %s'
-        if site == 'trcard':
-            base = 'fault deck\n1 0 -1 2 imp:n=1\n2 0 #1 imp:n=0\n\n1 so 5\n2 5 px -1\n\ntr5 %s\n'
+        star = site.startswith('star')
+        tr = ('1 0 0 0 90 90 90 0 90 90 90 0 %s' if star else '1 0 0 1 0 0 0 1 0 0 0 1 %s')
+        st = '*' if star else ''
+        if site.endswith('trcard'):
+            base = 'fault deck\n1 0 -1 2 imp:n=1\n2 0 #1 imp:n=0\n\n1 so 5\n2 5 px -1\n\n' + st + 'tr5 %s\n'
             return base % (tr % '1'), [], base % (tr % '-1'), []
-        if site == 'fill_inline':
-            base = ('fault deck\n1 0 -1 fill=7 (%s) imp:n=1\n2 0 1 imp:n=0\n21 0 -21 u=7 imp:n=1\n22 0 21 u=7 imp:n=1\n\n'
+        if site.endswith('fill_inline'):
+            base = ('fault deck\n1 0 -1 ' + st + 'fill=7 (%s) imp:n=1\n2 0 1 imp:n=0\n21 0 -21 u=7 imp:n=1\n22 0 21 u=7 imp:n=1\n\n'
                     '1 so 5\n21 pz 0\n\n')
             return base % (tr % '1'), [], base % (tr % '-1'), []
-        base = 'fault deck\n1 0 -1 trcl=(%s) imp:n=1\n2 0 #1 imp:n=0\n\n1 so 5\n\n'
+        base = 'fault deck\n1 0 -1 ' + st + 'trcl=(%s) imp:n=1\n2 0 #1 imp:n=0\n\n1 so 5\n\n'
         return base % (tr % '1'), [], base % (tr % '-1'), []
     if cls == 'lattice_option':
         deck = LAT_DECK % 'fill=7'
